@@ -29,7 +29,8 @@ Theorem C15_repr_line_safe : forall s : pstr, forallb line_safe_char (py_repr s)
 Proof. exact repr_line_safe. Qed.
 Print Assumptions C15_repr_line_safe.
 
-(* The bare-quote splice of environ/wizard.py (F21) is safe only for text without
+(* Why repr is needed: a BARE double-quote splice (as environ/wizard.py used before the F21
+   fix, and dumpers.py before the F5 fix, with single quotes) is safe only for text without
    double quote, backslash, braces, line breaks, NUL ... *)
 Theorem C15_bare_splice_partial :
   forall s : pstr, bare_safe s = true -> parse_literal (bare_dq s) = Some s.
@@ -83,25 +84,18 @@ Proof.
 Qed.
 Print Assumptions C15_v0_dump_refuted_unbound_default.
 
-(* EnvWizard __init__ (when the bare splice of the variable names is safe) and dict *)
+(* EnvWizard __init__ and dict *)
 Theorem C15_closed_env :
   forall sh : env_shape,
-    (forall f, env_init_fn sh = Some f ->
-       incl (free_names f) (allowed [] f) /\ incl (e_loads (fn_header f)) (allowed [] f)) /\
+    incl (free_names (env_init_fn sh)) (allowed [] (env_init_fn sh)) /\
+    incl (e_loads (fn_header (env_init_fn sh))) (allowed [] (env_init_fn sh)) /\
     incl (free_names (env_dict_fn sh)) (allowed [] (env_dict_fn sh)) /\
     incl (e_loads (fn_header (env_dict_fn sh))) (allowed [] (env_dict_fn sh)).
 Proof.
-  intro sh. split.
-  - intros f H. apply closedb_elim. exact (env_init_closed sh f H).
-  - apply closedb_elim. exact (env_dict_closed sh).
+  intro sh. destruct (closedb_elim _ _ (env_init_closed sh)) as [H1 H2].
+  destruct (closedb_elim _ _ (env_dict_closed sh)) as [H3 H4]. auto.
 Qed.
 Print Assumptions C15_closed_env.
-
-(* F21: with a variable name that the bare splice does not transport, the model
-   yields no function at all (the real text is a SyntaxError or another program). *)
-Theorem C15_env_splice_refuted : exists sh, env_init_fn sh = None.
-Proof. exact env_splice_refuted. Qed.
-Print Assumptions C15_env_splice_refuted.
 
 (* v1 load function of a class, in a batch that contains the helper functions of the
    nested dataclasses it calls *)
@@ -209,8 +203,8 @@ Proof. vm_compute. reflexivity. Qed.
    parameter and the global sentinel the body compares with (finding C15a). *)
 Theorem C15_env_collision_refuted :
   exists sh, NoDup (map ef_name (e_fields sh)) /\ env_names_ok sh = false /\
-    exists f, env_init_fn sh = Some f /\ In (S "MISSING") (fn_params f) /\
-              In (S "MISSING") (fn_globals f) /\ In (S "MISSING") (s_loads (fn_body f)).
+    In (S "MISSING") (fn_params (env_init_fn sh)) /\
+    In (S "MISSING") (fn_globals (env_init_fn sh)) /\ In (S "MISSING") (s_loads (fn_body (env_init_fn sh))).
 Proof. exists env_witness. exact env_collision_refuted. Qed.
 Print Assumptions C15_env_collision_refuted.
 
